@@ -23,7 +23,7 @@ ID = 'C18'
 LEVEL = 'exploration'
 RULE = (
     'clusters: centre positions {corner, face, interior} (1 or 2 clusters) x 12 orientations x bond {1.0,1.5} A x '
-    'frames<=4 (rigid rotation + translation crossing faces) x LATTICES scaled by 1.6 (cells >= 8 A); point groups '
+    'frames<=4 (rigid rotation + translation crossing faces) x LATTICES scaled by 1.6 (cells >= 8 A) x 3 atom orders (centres first / satellites first / molecule by molecule); vector operations on a triclinic rotated cell, originals unchanged; 2500-frame symmetrize; point groups '
     '{1,-1,2,m,2/m,222,mm2,mmm,4,-4,4/m,422,4mm,-42m,4/mmm,23,m-3,432,-43m,m-3m}; matrices {I, diag, shear, rotation, '
     'singular, integer}; autocorrelation for every T=1..40 x {constant, alternating, rotating, decaying} x 1-3 '
     'particles; evaluation = one vector/array comparison; distinct = distinct observed vector arrays'
